@@ -92,3 +92,179 @@ package home
 //@   callsite os.WriteFile(name, data, perm) requires name == fn0
 
 //@ sweep C14 os.WriteFile, os.Create, os.OpenFile, os.Truncate, github.com/google/renameio/v2/maybe.WriteFile, github.com/google/renameio/v2.WriteFile
+
+// ---- C11: every admin endpoint behind authentication ----
+// Provenance of handler values (ghost sets): guardedH / guardedF contain exactly the handlers returned by the
+// authentication wrappers (optionalAuthHandler, optionalAuth) or by wrappers that preserve the property around such a
+// handler; preH / preF those returned by the pre-install wrappers (served only while no configuration exists).  What a
+// guarded handler does is proved on the wrappers' bodies below (optionalAuth$1, optionalAuthThird, ensure$1).
+
+//@ ghost var guardedH map[any]bool
+//@ ghost var guardedF map[int]bool
+//@ ghost var preH map[any]bool
+//@ ghost var preF map[int]bool
+//@ ghost var lastThird bool
+//@ ghost var lastGL bool
+//@ ghost var lastSessRes int
+//@ ghost var lastUserOK bool
+//@ ghost var lastCT bool
+
+//@ func optionalAuthHandler(handler http.Handler) (r0 http.Handler)
+//@   trusted
+//@   modifies nothing
+//@   ghost at return: guardedH[r0] = true
+//@ func optionalAuth(h func(http.ResponseWriter, *http.Request)) (wrapped func(http.ResponseWriter, *http.Request))
+//@   trusted
+//@   modifies nothing
+//@   ghost at return: guardedF[wrapped] = true
+//@ func postInstallHandler(handler http.Handler) (r0 http.Handler)
+//@   trusted
+//@   modifies nothing
+//@   ghost at return: guardedH[r0] = guardedH[handler]
+//@   ghost at return: preH[r0] = preH[handler]
+//@ func postInstall(handler func(http.ResponseWriter, *http.Request)) (r0 func(http.ResponseWriter, *http.Request))
+//@   trusted
+//@   modifies nothing
+//@   ghost at return: guardedF[r0] = guardedF[handler]
+//@   ghost at return: preF[r0] = preF[handler]
+//@ func preInstall(handler func(http.ResponseWriter, *http.Request)) (r0 func(http.ResponseWriter, *http.Request))
+//@   trusted
+//@   modifies nothing
+//@   ghost at return: preF[r0] = true
+//@ func preInstallHandler(handler http.Handler) (r0 http.Handler)
+//@   trusted
+//@   modifies nothing
+//@   ghost at return: preH[r0] = true
+//@ func ensureHandler(method string, handler func(http.ResponseWriter, *http.Request)) (r0 http.Handler)
+//@   trusted
+//@   modifies nothing
+//@ func ensureGET(handler func(http.ResponseWriter, *http.Request)) (r0 func(http.ResponseWriter, *http.Request))
+//@   trusted
+//@   modifies nothing
+//@ func ensurePOST(handler func(http.ResponseWriter, *http.Request)) (r0 func(http.ResponseWriter, *http.Request))
+//@   trusted
+//@   modifies nothing
+// withMiddlewares(h, m1..mn) = mn(...m1(h)): guarded iff the authentication wrapper is among the middlewares.
+//@ func withMiddlewares(h http.Handler, middlewares []middleware) (wrapped http.Handler)
+//@   trusted
+//@   modifies nothing
+//@   ghost at return: guardedH[wrapped] = (exists k int :: 0 <= k && k < len(middlewares) && middlewares[k] == optionalAuthHandler)
+
+// Registration helper: authenticated unless the method is empty, which is reserved for the DNS-over-HTTPS resolver.
+//@ func httpRegister(method string, url string, handler http.HandlerFunc)
+//@   property C11
+//@   requires doh-only-without-auth: method != "" || url == "/dns-query" || url == "/dns-query/"
+//@   modifies *
+//@   callsite (*net/http.ServeMux).Handle(mux, pattern, h) requires pattern == url0 && guardedH[h]
+//@   callsite (*net/http.ServeMux).HandleFunc(mux, pattern, h) requires pattern == url0 && method0 == ""
+
+//@ func RegisterAuthHandlers()
+//@   property C11
+//@   modifies *
+//@   callsite (*net/http.ServeMux).Handle(mux, pattern, h) requires pattern == "/control/login"
+//@ func registerControlHandlers(web *webAPI)
+//@   property C11
+//@   modifies *
+//@   callsite (*net/http.ServeMux).HandleFunc(mux, pattern, h) requires guardedF[h] || pattern == "/apple/doh.mobileconfig" || pattern == "/apple/dot.mobileconfig"
+//@ func (web *webAPI) registerInstallHandlers()
+//@   property C11
+//@   modifies *
+//@   callsite (*net/http.ServeMux).HandleFunc(mux, pattern, h) requires preF[h]
+//@ func newWebAPI(ctx context.Context, conf *webConfig) (w *webAPI)
+//@   property C11
+//@   modifies *
+//@   callsite (*net/http.ServeMux).Handle(mux, pattern, h) requires guardedH[h] || preH[h]
+//@ func (clients *clientsContainer) registerWebHandlers()
+//@   property C11
+//@   modifies *
+//@ func (m *tlsManager) registerWebHandlers()
+//@   property C11
+//@   modifies *
+
+//@ sweep C11 (*net/http.ServeMux).Handle, (*net/http.ServeMux).HandleFunc, github.com/AdguardTeam/AdGuardHome/internal/home.httpRegister
+//@ package-callsite github.com/AdguardTeam/AdGuardHome/internal/home.httpRegister(method, url, handler) requires method != "" || url == "/dns-query" || url == "/dns-query/"
+
+// The wrapped handler runs only when no authentication is required, or the path is the login page / a public asset, or
+// the authentication step did not demand a login.
+//@ func optionalAuth$1(w http.ResponseWriter, r *http.Request)
+//@   property C11
+//@   requires globalContext.auth != nil ==> !held(globalContext.auth.lock)
+//@   modifies *
+//@   callsite dyncall(w2, r2) requires !authRequired || p == "/login.html" || isPublicResource(p) || !lastThird
+
+// No login is demanded only for a GL-inet token, a live session cookie, or correct basic credentials.
+//@ func optionalAuthThird(w http.ResponseWriter, r *http.Request) (mustAuth bool)
+//@   property C11
+//@   requires !held(globalContext.auth.lock)
+//@   modifies *
+//@   ensures authenticated-or-refused: !mustAuth ==> lastGL || lastSessRes == 0 || lastUserOK
+//@   ghost at return: lastThird = mustAuth
+
+//@ func glProcessCookie(r *http.Request) (r0 bool)
+//@   trusted
+//@   modifies nothing
+//@   ghost at return: lastGL = r0
+
+//@ func (a *Auth) findUser(login string, password string) (u webUser, ok bool)
+//@   trusted
+//@   modifies nothing
+//@   ghost at return: lastUserOK = ok
+
+// State-changing requests reach the handler only with the declared method and an acceptable content type.
+//@ func ensure$1(w http.ResponseWriter, r *http.Request)
+//@   property C11
+//@   requires !held(globalContext.controlLock)
+//@   modifies *
+//@   callsite dyncall(w2, r2) requires old(r.Method) == method && (modifiesData(old(r.Method)) ==> lastCT)
+
+//@ func ensureContentType(w http.ResponseWriter, r *http.Request) (ok bool)
+//@   property C11
+//@   modifies *
+//@   ensures json-or-empty: ok ==> (old(r.ContentLength) == 0 && old(r.Header.Get("Content-Type")) == "") || old(r.Header.Get("Content-Type")) == "application/json"
+//@   ghost at return: lastCT = ok
+
+//@ func modifiesData(m string) (ok bool)
+//@   property C11
+//@   pure-function
+//@   modifies nothing
+//@   ensures ok == (m == "POST" || m == "PUT" || m == "DELETE")
+
+//@ func isPublicResource(p string) (ok bool)
+//@   property C11
+//@   pure-function
+//@   modifies nothing
+//@   ensures ok == (path.Match("/assets/*", p) || path.Match("/login.*", p))
+
+// ---- C12 (continued): sessions ----
+
+//@ define nowSec(t time.Time) int = uint32(t.UTC().Unix())
+
+//@ func (a *Auth) checkSession(sess string) (res checkSessionResult)
+//@   property C11, C12
+//@   requires !held(a.lock)
+//@   modifies *
+//@   ensures ok-needs-known-session: res == 0 ==> old(sess in a.sessions)
+//@   ensures expired-never-ok: old(sess in a.sessions) && old(a.sessions[sess].expire) <= nowSec(lastNow) ==> res == 1 && !(sess in a.sessions)
+//@   ensures unknown: !old(sess in a.sessions) ==> res == -1
+//@   callsite (*github.com/AdguardTeam/AdGuardHome/internal/home.Auth).removeSessionFromFile(a2, key) requires key == hex.DecodeString(sess0)
+//@   ghost at return: lastSessRes = res
+
+//@ func (a *Auth) removeSession(sess string)
+//@   property C12
+//@   requires !held(a.lock)
+//@   modifies *
+//@   callsite (*github.com/AdguardTeam/AdGuardHome/internal/home.Auth).removeSessionFromFile(a2, key) requires key == hex.DecodeString(sess0)
+
+//@ func (a *Auth) removeSessionFromFile(sess []byte)
+//@   trusted
+//@   modifies nothing
+//@ func (a *Auth) storeSession(data []byte, s *session) (ok bool)
+//@   trusted
+//@   modifies nothing
+
+//@ func (a *Auth) authRequired() (r0 bool)
+//@   trusted
+//@   modifies nothing
+//@ func glProcessRedirect(w http.ResponseWriter, r *http.Request) (r0 bool)
+//@   trusted
+//@   modifies nothing
